@@ -40,6 +40,12 @@ fn main() {
             println!("Spawned {} thread(s)", n);
             rws::server::Server::run(listener, pool, probe::MixedApp);
         }
+        "coldrace" => {
+            // vh coldrace <cases> <out> <threads>: concurrent FIRST use of the code under test in a fresh process
+            probe::install_panic_hook();
+            let n: usize = args[4].parse().expect("threads");
+            probe::run_cold_race(&args[2], &args[3], n);
+        }
         "b64" => {
             b64::run(&args[2..]);
         }
